@@ -38,6 +38,10 @@ struct Job {
     /// the first next() of a by-value iterator source waits until this many workers have begun
     #[serde(default)]
     hold_workers: u32,
+    /// scheduled modes: the worker that calls next() for this source position parks inside next()
+    /// (holding the turnstile) and is scheduled last; -1 = never
+    #[serde(default = "neg1i")]
+    hold_pos: i64,
     #[serde(default = "dflt_timeout")]
     timeout_ms: u64,
     #[serde(default = "one")]
@@ -47,6 +51,9 @@ struct Job {
 
 fn one() -> u8 {
     1
+}
+fn neg1i() -> i64 {
+    -1
 }
 fn dflt_timeout() -> u64 {
     60_000
@@ -89,7 +96,7 @@ fn prebuild(p: &Prog) -> (Prebuilt, Option<Vec<(u32, i32)>>) {
     }
 }
 
-fn run_prog(ctx: &Ctx, spin: u32, sleep_us: u32, hold: u32, logcalls: bool, pre: Prebuilt) -> Out {
+fn run_prog(ctx: &Ctx, spin: u32, sleep_us: u32, hold: u32, hold_pos: i64, logcalls: bool, pre: Prebuilt) -> Out {
     let p = &ctx.prog;
     let shape = p.shape();
     match pre {
@@ -104,8 +111,8 @@ fn run_prog(ctx: &Ctx, spin: u32, sleep_us: u32, hold: u32, logcalls: bool, pre:
     }
     match p.src.as_str() {
         "vec" => shapes::run_vec(&shape, ctx, exec::items_of(p)),
-        "iter" => shapes::run_iter(&shape, ctx, exec::SrcIter::new(exec::items_of(p), true, spin, logcalls, sleep_us, hold)),
-        "iterx" => shapes::run_iter(&shape, ctx, exec::SrcIter::new(exec::items_of(p), false, spin, logcalls, sleep_us, hold)),
+        "iter" => shapes::run_iter(&shape, ctx, exec::SrcIter::new(exec::items_of(p), true, spin, logcalls, sleep_us, hold, hold_pos)),
+        "iterx" => shapes::run_iter(&shape, ctx, exec::SrcIter::new(exec::items_of(p), false, spin, logcalls, sleep_us, hold, hold_pos)),
         "slice" => {
             let items = exec::items_of(p);
             shapes::run_slice(&shape, ctx, &items[..])
@@ -268,7 +275,7 @@ fn cmd_run(inp: &str, outp: &str) {
 
         let ctx = Ctx::new(&job.p);
         let spin = job.spin;
-        let res = std::panic::catch_unwind(std::panic::AssertUnwindSafe(|| run_prog(&ctx, spin, job.sleep_us, job.hold_workers, job.logcalls != 0, pre)));
+        let res = std::panic::catch_unwind(std::panic::AssertUnwindSafe(|| run_prog(&ctx, spin, job.sleep_us, job.hold_workers, job.hold_pos, job.logcalls != 0, pre)));
         let res = res.map_err(|_| ());
         log_te(&res, job.p.is_big());
         drop(res);
